@@ -44,6 +44,7 @@ def run(prog, rep, tier, repo):
     d6_loops(prog, rep)
     d8_regimes(prog, rep)
     d9_param_truncation(prog, rep)
+    d10_mvn(prog, rep)
     d7_integral(prog, rep)
     # ---- D9 ln(Gamma(x)) with an unbounded argument: Gamma overflows above 171.6 while its logarithm does not; an acceptance test
     # `.. <= .. - gamma(k + 1).ln()` is then always false for k >= 171 and those candidates can never be returned
@@ -737,6 +738,91 @@ def helper_regimes(prog, hk):
                 out[ai] = (region, 'folds %s into %s (identity for %s in %r) but still computes with the raw parameter: %s' % (
                     f.names.get(ai), show(loc), f.names.get(ai), region, raw[0]))
     return out
+
+
+def d10_mvn(prog, rep):
+    """MVN draws are mean + L z with z standard normal of the model's dimension and L the lower Cholesky factor of the covariance
+    (L L^T = Sigma): the factor stored by the constructor is cholesky(covariance), the cached inverse / determinant are of the same matrix,
+    and sample() multiplies by L itself -- a transposed product (t_dot) gives draws with covariance L^T L"""
+    pdb = prog.pdb
+    MV = DS + 'multivariatenormal::MVN'
+    adt = pdb.adts.get(MV)
+    if adt is None:
+        rep.viol('mvn-sample', 'mvn-sample:MVN', 'MVN disappeared')
+        rep.floor('mvn-sample', 2, 'MVN constructor and sample')
+        return
+    fidx = {fl['name']: i for i, fl in enumerate(adt['variants'][0]['fields'])}
+    # constructor
+    f = prog.func(MV + '::new')
+    key = 'mvn-sample:new'
+    if f is None:
+        rep.undecided('mvn-sample', key, 'constructor not found', proof=False)
+    else:
+        rep.touch(f.body.key)
+        rv = [prog.inline(r, only=lambda p_: p_.startswith(MV)) for r in f.return_values()]
+        if len(rv) == 1 and tag(rv[0]) == 'agg' and rv[0][1] == 'adt' and rv[0][2] == MV:
+            comps = rv[0][3]
+            cov = comps[fidx['covariance_matrix']]
+
+            def strip(t):
+                while tag(t) == 'call' and short(t[1]) in ('into', 'clone', 'deref', 'borrow', 'to_owned') and t[2]:
+                    t = t[2][0]
+                return t
+            problems, unread = [], []
+            for fld, meth in (('decomposed_covariance_matrix', 'cholesky'), ('inverse_covariance_matrix', 'inv'), ('covariance_determinant', 'det')):
+                v = comps[fidx[fld]]
+                if tag(v) == 'call' and v[1].startswith('linalg::array::matrix::Matrix::') and v[2]:
+                    if short(v[1]) != meth:
+                        problems.append('`%s` is computed by %s, expected %s' % (fld, short(v[1]), meth))
+                    elif strip(v[2][0]) != strip(cov):
+                        problems.append('`%s` is %s of %s, not of the covariance matrix' % (fld, meth, show(v[2][0])[:30]))
+                else:
+                    unread.append('%s := %s' % (fld, show(v)[:40]))
+            if problems:
+                rep.viol('mvn-sample', key, '; '.join(problems), site_of(f.body))
+            elif unread:
+                rep.undecided('mvn-sample', key, 'cached quantities not read: %s' % '; '.join(unread), site_of(f.body), proof=False)
+            else:
+                rep.ok('mvn-sample', key, 'L = cholesky(Sigma), Sigma^-1 = inv(Sigma), det = det(Sigma) of the same matrix')
+        else:
+            rep.undecided('mvn-sample', key, 'constructor does not return one struct literal', site_of(f.body), proof=False)
+    # sample
+    ks = [k for k, b in pdb.bodies.items() if b.impl and b.impl['self_ty'].endswith('multivariatenormal::MVN') and b.impl['trait'] == DS + 'Distribution'
+          and b.name == 'sample' and b.kind != 'closure']
+    key = 'mvn-sample:sample'
+    if not ks:
+        rep.undecided('mvn-sample', key, 'sample not found', proof=False)
+    else:
+        f = prog.func(ks[0])
+        rep.touch(ks[0])
+        me = ('arg', 1, f.names.get(1))
+        rv = [prog.inline(r, only=lambda p_: p_.startswith(MV) or p_.startswith('<' + MV)) for r in f.return_values()]
+        L = ('field', me, fidx['decomposed_covariance_matrix'], 'linalg::array::matrix::Matrix')
+        prods = [z for r in rv for z in subterms(r) if tag(z) == 'call' and 'Dot<' in z[1] and len(z[2]) == 2 and
+                 any(q == L for a in z[2] for q in subterms(a))]
+        if len(rv) != 1 or len(prods) != 1:
+            rep.undecided('mvn-sample', key, 'product with the Cholesky factor not read (%d products)' % len(prods), site_of(f.body), proof=False)
+        else:
+            pr = prods[0]
+            lhs_is_L = any(q == L for q in subterms(pr[2][0]))
+            meth = short(pr[1])
+            zterm = pr[2][1] if lhs_is_L else pr[2][0]
+            is_std_normal = any(tag(q) == 'call' and short(q[1]) in ('sample_n', 'sample') and
+                                any(tag(w) == 'call' and 'normal::Normal' in w[1] and short(w[1]) == 'default' for w in subterms(q)) for q in subterms(zterm))
+            addm = [z for z in subterms(rv[0]) if tag(z) == 'call' and 'std::ops::Add' in z[1] and
+                    any(q == ('field', me, fidx['mean'], 'linalg::array::vec::Vector') for a in z[2] for q in subterms(a))]
+            if lhs_is_L and meth == 'dot' and is_std_normal and addm:
+                rep.ok('mvn-sample', key, 'sample = mean + L.dot(z), z standard normal')
+            elif lhs_is_L and meth in ('t_dot', 't_dot_t'):
+                rep.viol('mvn-sample', key, 'sample multiplies z by the transposed factor (L.%s(z)): the draws have covariance L^T L, not L L^T = Sigma' % meth, site_of(f.body))
+            elif not lhs_is_L and meth in ('dot', 'dot_t') and is_std_normal:
+                rep.viol('mvn-sample', key, 'sample forms z.%s(L), a row vector times L: the draws have covariance L^T L, not Sigma' % meth, site_of(f.body))
+            elif not addm:
+                rep.viol('mvn-sample', key, 'the mean is not added to L z', site_of(f.body)) if lhs_is_L and meth == 'dot' else \
+                    rep.undecided('mvn-sample', key, 'sample expression not read', site_of(f.body), proof=False)
+            else:
+                rep.undecided('mvn-sample', key, 'sample expression not read (product %s, standard normal z: %s)' % (meth, is_std_normal), site_of(f.body), proof=False)
+    rep.floor('mvn-sample', 2, 'MVN constructor and sample')
 
 
 def d9_param_truncation(prog, rep):
